@@ -6,7 +6,9 @@
     well_formed: local keys strictly increasing, local values not None, removed_keys duplicate-free and disjoint from them
 
 The real methods are interpreted by PyVC on big_maps with n local entries and m removed keys (n = 0..3, m = 0..2; thorough
-n <= 4, m <= 3), int keys with SYMBOLIC payloads, a SYMBOLIC operand key and a symbolic on-chain verdict.  Obligations
+n <= 4, m <= 3), int keys with SYMBOLIC payloads, a SYMBOLIC operand key and a symbolic on-chain verdict; the big_map id `ptr` is
+a SYMBOLIC integer (negative = temporary/fresh, non-negative = on chain), stored values and the value written are OPAQUE objects
+with a free truthiness each (props.C14_P.GVal), the on-chain value is falsy ("") or not.  Obligations
 (all key values):  get(k) == view(k);   update(k, v) returns prev == view(k) and a well-formed big_map whose local entries and
 removed keys are exactly those of view[k := v] — every other entry untouched, the operand not modified, ptr and context kept.
 By induction over the history every observation equals the layered dictionary (the bounded part C15_R replays whole
@@ -17,6 +19,7 @@ import z3
 from vlib.pyvc import Engine, RaiseEx, Sym, Obj, Z, ZB, Unsupported
 from vlib.pyvc.report import report, functions_interpreted
 from vlib.pyvc.parallel import run_jobs, FakeEng
+from props.C14_P import GVal, _sv
 
 
 def _T():
@@ -46,7 +49,7 @@ class GCtx:
     __pyvc_symbolic__ = True
 
     def __init__(self, on_chain):
-        self.on_chain, self.calls = on_chain, []
+        self.on_chain, self.calls, self.ptrs, self.chain_falsy = on_chain, [], [], None
 
     def __pyvc_truth__(self, eng):
         return True
@@ -58,10 +61,12 @@ class GCtx:
 
     def _get(self, eng, ptr, key_hash):
         self.calls.append(key_hash)
+        self.ptrs.append(ptr)
         if not isinstance(key_hash, GHash):
             raise Unsupported('key hash')
         if eng.fork(self.on_chain):
-            return {'string': 'chain'}
+            # the on-chain value may be a falsy one (was always the truthy 'chain')
+            return {'string': ''} if eng.fork(self.chain_falsy) else {'string': 'chain'}
         return None
 
 
@@ -94,16 +99,34 @@ def mk_bigmap(e, n, m):
             e.assume(r.e != k.e)
         for r2 in rs[:i]:
             e.assume(r.e != r2.e)
-    vals = [T.StringType('' if i % 2 == 0 else f'v{i}') for i in range(n)]     # falsy stored values included
+    # stored values: opaque, free truthiness each (was: "" at even, 'v<i>' at odd positions)
+    vals = [GVal(e, f'v{i}') for i in range(n)]
     on_chain = e.bool('on_chain').e
     ctx = GCtx(on_chain)
+    ctx.chain_falsy = e.bool('chain_falsy').e
+    # the big_map id: ANY integer (was the constant 7) — temporary ids of fresh big_maps are negative, on-chain ids are not
+    ctx.ptr = e.int('ptr')
     bm = Obj(cls)
-    bm.f.update(items=[(ikey(k), v) for k, v in zip(ks, vals)], ptr=7, removed_keys=[ikey(r) for r in rs], context=ctx)
+    bm.f.update(items=[(ikey(k), v) for k, v in zip(ks, vals)], ptr=ctx.ptr, removed_keys=[ikey(r) for r in rs], context=ctx)
     return bm, [k.e for k in ks], vals, [r.e for r in rs], ctx
 
 
-def is_chain(v):
-    return (not isinstance(v, Obj)) and v is not None and getattr(type(v), 'prim', None) == 'string' and str(v) == 'chain'
+def same_ptr(ctx, p):
+    """z3: p is the big_map's own id"""
+    if isinstance(p, Sym):
+        return Z(p) == ctx.ptr.e
+    return z3.BoolVal(False) if not isinstance(p, int) or isinstance(p, bool) else z3.IntVal(p) == ctx.ptr.e
+
+
+def is_chain(v, falsy=None):
+    """v is the parsed on-chain value (of the falsy / truthy variant when `falsy` is given)"""
+    ok = (not isinstance(v, Obj)) and v is not None and getattr(type(v), 'prim', None) == 'string'
+    return ok and (str(v) in ('', 'chain') if falsy is None else str(v) == ('' if falsy else 'chain'))
+
+
+def chain_result(e, ctx, v):
+    """z3: v == chain(x) — decided on this path: the stub has forked on both verdicts when it was called"""
+    return z3.If(ctx.on_chain, z3.If(ctx.chain_falsy, z3.BoolVal(is_chain(v, True)), z3.BoolVal(is_chain(v, False))), z3.BoolVal(v is None))
 
 
 def h_get(n, m):
@@ -129,7 +152,8 @@ def h_get(n, m):
             e.check(f'{tag}::ensures.chain_lookup_with_hash_of_this_key',
                     z3.BoolVal(len(ctx.calls) == 1 and isinstance(ctx.calls[0], GHash)) if not ctx.calls or not isinstance(ctx.calls[0], GHash)
                     else kval(ctx.calls[0].key) == x.e)
-            e.check(f'{tag}::ensures.result==chain(x)', z3.If(ctx.on_chain, z3.BoolVal(is_chain(r)), z3.BoolVal(r is None)))
+            e.check(f'{tag}::ensures.chain_lookup_under_own_ptr', same_ptr(ctx, ctx.ptrs[0]) if len(ctx.ptrs) == 1 else z3.BoolVal(False))
+            e.check(f'{tag}::ensures.result==chain(x)', chain_result(e, ctx, r))
     return h
 
 
@@ -143,7 +167,7 @@ def h_update(n, m, remove):
         found = [e.fork(x.e == k) for k in ks]
         removed = [e.fork(x.e == r) for r in rs]
         pos = sum(1 for k in ks if e.fork(k < x.e))
-        newv = None if remove else T.StringType('new')
+        newv = None if remove else GVal(e, 'new')            # the value written may be falsy (was always the truthy 'new')
         tag = f'BigMapType.update[n={n},m={m}{",remove" if remove else ""}]'
         try:
             prev, res = e.call(e.getattr_(bm, 'update'), [ikey(x), newv])
@@ -161,13 +185,14 @@ def h_update(n, m, remove):
             e.check(f'{tag}::ensures.prev==view(x)[removed]', z3.BoolVal(prev is None))
             view_some = z3.BoolVal(False)
         else:
-            e.check(f'{tag}::ensures.prev==view(x)[chain]', z3.If(ctx.on_chain, z3.BoolVal(is_chain(prev)), z3.BoolVal(prev is None)))
+            e.check(f'{tag}::ensures.prev==view(x)[chain]', chain_result(e, ctx, prev))
+            e.check(f'{tag}::ensures.chain_lookup_under_own_ptr', same_ptr(ctx, ctx.ptrs[0]) if len(ctx.ptrs) == 1 else z3.BoolVal(False))
             view_some = ctx.on_chain
         rf = res.f if isinstance(res, Obj) else vars(res) if res is not None else {}
         rcls = res.cls if isinstance(res, Obj) else type(res)
         ok = rcls is bm.cls
         e.check(f'{tag}::ensures.result_is_big_map_with_same_ptr_and_context',
-                z3.BoolVal(bool(ok) and rf.get('ptr') == 7 and rf.get('context') is ctx))
+                z3.And(z3.BoolVal(bool(ok) and rf.get('context') is ctx), same_ptr(ctx, rf.get('ptr'))))
         if not ok:
             return
         others = [(k, v) for (k, v), f in zip(zip(ks, vals), found) if not f]
@@ -213,25 +238,29 @@ def native(case):
     x = int(case.get('x', 0))
     if sorted(set(ks)) != ks or len(set(rs)) != len(rs) or set(rs) & set(ks):
         return False, 'counter-model is not a well-formed big_map'
-    chain = {x: 'chain'} if case.get('on_chain') else {}
+    truthy = lambda name: case.get(name, True) is True or str(case.get(name, True)) == 'True'        # noqa: E731
+    chain = {x: ('' if truthy('chain_falsy') and 'chain_falsy' in case else 'chain')} if truthy('on_chain') and 'on_chain' in case else {}
+    ptr = int(case.get('ptr', 7))
 
     class Ctx:
         tzt = False
 
-        def get_big_map_value(self, ptr, key_hash):
+        def get_big_map_value(self, p, key_hash):
+            if p != ptr:
+                return {'string': f'value of ANOTHER big_map ({p})'}
             return {'string': chain[hash_to_key[key_hash]]} if hash_to_key.get(key_hash) in chain else None
     cls = T.BigMapType.create_type(args=[T.IntType, T.StringType])
-    bm = cls(items=[(T.IntType(k), T.StringType('' if i % 2 == 0 else f'v{i}')) for i, k in enumerate(ks)], ptr=7, removed_keys=[T.IntType(r) for r in rs])
+    bm = cls(items=[(T.IntType(k), T.StringType(_sv(case, i))) for i, k in enumerate(ks)], ptr=ptr, removed_keys=[T.IntType(r) for r in rs])
     bm.context = Ctx()
     hash_to_key = {bm.get_key_hash(k): k for k in set(ks) | set(rs) | {x}}
     view = dict(chain)
     view.update({r: None for r in rs})
-    view.update({k: ('' if i % 2 == 0 else f'v{i}') for i, k in enumerate(ks)})
+    view.update({k: _sv(case, i) for i, k in enumerate(ks)})
     if case['op'] == 'get':
         g = bm.get(T.IntType(x), dup=False)
-        return (str(g) if g is not None else None) != view.get(x), f'get {x} on local {ks} removed {rs} chain {chain}: {g!r}, view says {view.get(x)!r}'
-    newv = None if case.get('remove') else 'new'
-    prev, res = bm.update(T.IntType(x), T.StringType(newv) if newv else None)
+        return (str(g) if g is not None else None) != view.get(x), f'get {x} on big_map {ptr} local {bm.items} removed {rs} chain {chain}: {g!r}, view says {view.get(x)!r}'
+    newv = None if case.get('remove') else _sv(case, 'new')
+    prev, res = bm.update(T.IntType(x), T.StringType(newv) if newv is not None else None)
     want_prev = view.get(x)
     view[x] = newv
     bad = (str(prev) if prev is not None else None) != want_prev
@@ -239,7 +268,8 @@ def native(case):
         g = res.get(T.IntType(k), dup=False)
         if (str(g) if g is not None else None) != view.get(k):
             bad = True
-    return bad, f'update {x} := {newv} on local {ks} removed {rs} chain {chain}: prev={prev!r} items={res.items} removed={res.removed_keys}'
+    bad = bad or res.ptr != ptr
+    return bad, f'update {x} := {newv!r} on big_map {ptr} local {bm.items} removed {rs} chain {chain}: prev={prev!r} items={res.items} removed={res.removed_keys} ptr={res.ptr}'
 
 
 def replay(case):
@@ -250,7 +280,8 @@ def run_P(ck):
     T = _T()
     for f in (T.BigMapType.get, T.BigMapType.update):
         ck.function(f)
-    ck.assume('int keys with symbolic payloads; on-chain contents = uninterpreted (present/absent verdict for the operand key); '
+    ck.assume('int keys with symbolic payloads; symbolic big_map id; opaque values with a free truthiness each (stored, written; the '
+              'on-chain value "" or not); on-chain contents = uninterpreted (present/absent verdict for the operand key); '
               'key.pack / forge_script_expr replaced by an injective ghost hash (real hash checked in C15_R)')
     ck.assume('sorted() = stable insertion sort by <, set() = dedup by == (CPython, given the C03 order laws)')
     ck.assume('induction over the history: get/update preserve well-formedness and implement view[k := v]')
